@@ -402,6 +402,11 @@ fn mutate_selection(r: &mut Rng, v: Value, depth: usize) -> Value {
             if r.chance(1, 4) {
                 m.insert("no_such_member".into(), match r.below(4) { 0 => json!(true), 1 => json!({"a": true}), 2 => json!([true]), _ => json!(false) });
             }
+            // the names of the bookkeeping members of an issued payload (they are no claims): selected by name, by position, as objects
+            if r.chance(1, 5) {
+                let k = *r.pick(&["_sd", "...", "_sd_alg", "cnf"]);
+                m.insert(k.into(), match r.below(5) { 0 => json!(true), 1 => json!([true, true, true, true, true, true]), 2 => json!([false, true]), 3 => json!({"jwk": true, "0": true}), _ => json!([[true], {"...": true}]) });
+            }
             Value::Object(m)
         }
         Value::Array(a) => {
@@ -689,6 +694,13 @@ pub fn notable_claims(now: u64) -> Vec<(Value, Vec<String>)> {
         // objects INSIDE ARRAYS whose only member has a name that merely begins like a reserved one
         (base(json!({"arr": [{"...x": 1}, {"....": {"a": 1}}, [{"...and more": true}], {"_sdx": 1}, {"_sd_": [1]}, {"... ": null}, {"..": 2}, {"\u{2026}": 3}], "o": {"l": [[{"...1": {"...2": 1}}]]}})),
          vec!["$.arr[1].....a".into(), "$.arr[3]".into(), "$.o.l[0][0]....1".into(), "$.arr[4]._sd_[0]".into()]),
+        // lists of more than ten elements: indices of two digits, listed together with one-digit ones (their order as TEXT is not
+        // their order as numbers)
+        (base(json!({"l": (0..23).map(|i| json!(format!("e{}", i))).collect::<Vec<_>>(), "rows": (0..13).map(|i| json!({"name": format!("n{}", i), "v": [i, i + 1]})).collect::<Vec<_>>()})), vec!["$.l[10]".into()]),
+        (base(json!({"l": (0..23).map(|i| json!(format!("e{}", i))).collect::<Vec<_>>(), "rows": (0..13).map(|i| json!({"name": format!("n{}", i), "v": [i, i + 1]})).collect::<Vec<_>>()})), vec!["$.l[2]".into(), "$.l[10]".into()]),
+        (base(json!({"l": (0..23).map(|i| json!(format!("e{}", i))).collect::<Vec<_>>(), "rows": (0..13).map(|i| json!({"name": format!("n{}", i), "v": [i, i + 1]})).collect::<Vec<_>>()})), vec!["$.l[9]".into(), "$.l[11]".into(), "$.rows[11].name".into()]),
+        (base(json!({"l": (0..23).map(|i| json!(format!("e{}", i))).collect::<Vec<_>>(), "rows": (0..13).map(|i| json!({"name": format!("n{}", i), "v": [i, i + 1]})).collect::<Vec<_>>()})), vec!["$.l[1]".into(), "$.l[10]".into(), "$.l[19]".into(), "$.l[22]".into(), "$.rows[12].v[1]".into(), "$.rows[3]".into()]),
+        (base(json!({"l": (0..23).map(|i| json!(format!("e{}", i))).collect::<Vec<_>>(), "rows": (0..13).map(|i| json!({"name": format!("n{}", i), "v": [i, i + 1]})).collect::<Vec<_>>()})), vec!["$.l.[20]".into(), "$.l.[3]".into(), "$.rows.[10].v.[0]".into()]),
         // names that begin like the reserved ones
         (base(json!({"_sdk_version": {"major": 1}, "....": {"x": [1, 2]}, "...and more": 3, "nested": {"_sd_": {"_sdx": 1}, "... ": [true]}})), vec!["$._sdk_version.major".into(), "$......x[0]".into(), "$.nested._sd_._sdx".into()]),
     ]
